@@ -13,6 +13,8 @@ R13.d  idle-time reward shape: the appended value is the negated gap between
        operation on the *chosen* machine (start itself when there is none);
        any per-machine state a reward keeps is indexed by the scheduled
        operation's machine_id only.
+R13.e  no for-loop variable of these modules is read after its loop (a statement
+       left one indentation level too shallow sees only the last element).
 """
 
 from __future__ import annotations
@@ -34,6 +36,7 @@ MANIFEST = {
         "R12.a re-initialisation); the idle-time reward is the negated gap to "
         "the previous operation of the chosen machine; rewards are stored without a narrowing cast. Not decided: the sums "
         "as numbers."
+        " Also decided: no for-loop variable of these modules is read after its loop (statement left one indentation level too shallow)."
     ),
     "note": "Shapes outside the recognised idioms (difference of old/new makespan, negated start-minus-previous-end) are ANALYSIS-ERROR.",
     "technique": "path counting of appends + def-use provenance of the appended value (telescoping shape) + return provenance in step",
@@ -56,6 +59,9 @@ def _expand(ctx, fi, e, depth=0):
 
 def run(ctx):
     chk, repo = ctx.chk, ctx.repo
+    from .common import check_loop_variable_leaks
+
+    check_loop_variable_leaks(ctx, "R13.e", ("job_shop_lib.reinforcement_learning._reward_observers",), "the reward-observer")
     for rid, txt in (
         ("R13.a", "every reward's update appends exactly one value to rewards on every path; reset empties; last_reward = rewards[-1]"),
         ("R13.b", "step returns reward_function.last_reward read after the dispatch; multi env passes it through"),
